@@ -27,7 +27,9 @@ type pipe struct {
 	inputID string
 	// inputLike: the input list and its full copies (append(make(…, 0, …), input...))
 	inputLike map[string]bool
-	n         c17.Scalar // len(input)
+	// images: made arrays filled element by element from such a list (copy / uniform similarity / stretched)
+	images map[string]image
+	n      c17.Scalar // len(input)
 
 	M string // the working triangle map
 
